@@ -30,6 +30,7 @@ def script_basic(S, t1="raw", t2="raw"):
     S.request(a, "change", {"path": "s/1", "value": "changed"})
     S.request(b, "get", {"path": {"contains": "s", "containsAllOf": ["s", "/"]}})
     S.request(b, "get", {})
+    S.request(a, "config", {"name": "owner-under-its-second-name"})     # a peer that already has a name is renamed
     S.settle()
     p1 = S.request(b, "set", {"path": "s/1", "value": 5, "timeout": 1})
     p2 = S.request(b, "call", {"path": "s/m", "args": [1, 2]})
